@@ -949,4 +949,40 @@ def roundTripClass (v : Value) (r : Option Value) : Option String :=
       else if approx (2 ^ 64) v w then some "float:D_json_float_2ulp"
       else some "roundtrip:-"
 
+/-! ### float law (hypotheses of the round-trip theorems) -/
+
+/-- The text printed for the double `x` is a JSON number token with a fraction or an exponent
+    (so it is never read back as an integer), and the float conversion accepts it. -/
+def FloatTextOK (P : Prims) (x : Nat) : Prop :=
+  ∃ t : NumTok, t.wf = true ∧ t.isFloat = true ∧ P.showF x = t.render ∧ (P.parseF t.render).isSome = true
+
+/-- the double obtained by printing `x` and converting the text back -/
+def readBack (P : Prims) (x : Nat) : Nat := (P.parseF (P.showF x)).getD x
+
+/-- decidable form of `FloatTextOK` used by the driver on observed texts -/
+def floatTextCheck (text : List Nat) : Bool :=
+  match lexNum text with
+  | some (t, []) => t.wf && t.isFloat && t.render == text
+  | _ => false
+
+mutual
+  /-- `Q` holds of every float in the value -/
+  def AllFloats (Q : Nat → Prop) : Value → Prop
+    | .float b => Q b
+    | .arr xs => AllFloatsL Q xs
+    | .obj m => AllFloatsM Q m
+    | .null => True
+    | .bool _ => True
+    | .int _ => True
+    | .bytes _ => True
+    | .ts _ => True
+    | .regex _ => True
+  def AllFloatsL (Q : Nat → Prop) : VList → Prop
+    | .nil => True
+    | .cons x xs => AllFloats Q x ∧ AllFloatsL Q xs
+  def AllFloatsM (Q : Nat → Prop) : VMap → Prop
+    | .nil => True
+    | .cons _ x m => AllFloats Q x ∧ AllFloatsM Q m
+end
+
 end Json
